@@ -396,6 +396,8 @@ def h_decimal(e, form, nsigns, follow):
     j = len(signs) + len(dchars)
     if form.endswith('.') and follow.startswith('.'):
         return                                       # "1.." : what the second point belongs to is not claimed
+    if follow.startswith('.') and '.' not in form and ',' not in form:
+        j += 1                                       # "12.x": the point is part of the constant (a fraction without digits)
     exp = _expected_rest(chars, j)
     ok = _same_tokens(rest, exp)
     if follow.startswith(' '):
